@@ -509,7 +509,9 @@ class SymReal:
     def _token(self, spec):
         c = ctx()
         c.tokens.append((self.t, spec))
-        return chr(MARK_BASE + len(c.tokens) - 1)
+        k = len(c.tokens) - 1
+        r = getattr(c, 'render', None)
+        return chr(MARK_BASE + k) if r is None else r(k, spec)
 
     def __format__(self, spec):
         return self._token(spec)
